@@ -105,8 +105,18 @@ def shard(ctx):
     n = 22 if ctx.quick else 520
     for t in range(n):
         doc = gen.gen_doc(rng) if t % 6 != 5 else gen.gen_tf_doc(rng)     # every 6th: Terraform-plan-shaped (own console view)
+        if isinstance(doc, dict) and t % 3 == 0:
+            # characters that are markup in XML / need escaping in JSON and YAML: they travel into failure texts of every renderer
+            doc = dict(doc)
+            doc[rng.choice(["a", "b", "k"])] = rng.choice(["R&D <platform>", "a<b", "x]]>y", "q\"uo'te", "tab\there", "amp&amp;", "<!-- c -->", "back\\slash", "é<ü>"])
         docs = json.dumps(doc)
         f = gen.gen_file(rng, doc, o)
+        if t % 3 == 0:
+            for kind, cnf in gen.iter_cnfs(f):
+                for line in cnf:
+                    for alt in line:
+                        if alt.get("msg") and rng.random() < 0.5:
+                            alt["msg"] = rng.choice(["m<1&2> x", "use x < 5 && y > 3 !", "see <doc/> here", "50% & more", "it's \"quoted\""])     # none ends in `>` (would merge with the closing >>)
         if t % 7 == 3:
             # a large report (> 8 KiB) - the library entry point once truncated those
             f["rules"] = f["rules"] + [gen.rule("big%d" % i, [[gen.clause(gen.kq("nokey%d" % i, "x"), "==", ["lit", "v" * 40], msg="long message %d " % i + "m" * 60)]])
@@ -243,6 +253,9 @@ def check_pair(ctx, text, docs, rng):
             return
         B = obs_from_report(brep)
         bexit = base["code"]
+        if bexit == 5:
+            ctx.inconclusive("rules-file-does-not-parse")      # generator slip, not a statement about the tool (C06/C08 own parse errors)
+            return
         want_exit = 19 if B["file"] == "FAIL" else 0
         ctx.res.cases += 1
         case0 = {"rules": text, "data": docs}
